@@ -1,6 +1,8 @@
 package verifharness
 
 import (
+	"os"
+
 	f1t "github.com/form3tech-oss/f1/v2/pkg/f1/testing"
 )
 
@@ -32,6 +34,7 @@ type bodyRec struct {
 	PlannedFail   bool
 	// combined scenarios: which components ran, in order
 	CompRan []int
+	Env     map[string]string // environment read at entry (file mode)
 }
 
 type compEvent struct {
@@ -83,6 +86,7 @@ type runGT struct {
 	LeftoverAfter          []string
 	LateProgress           int
 	BodiesBegunAfterReturn int
+	EnvAfter               map[string]string // stage parameters still set after Do returned
 }
 
 func (g *runGT) handleOf(t *f1t.T) int {
@@ -121,6 +125,14 @@ func (rt *scenRT) begin(t *f1t.T) *bodyRec {
 	if g.DoReturned {
 		g.BodiesBegunAfterReturn++
 	}
+	if len(rt.cfg.ReadEnv) > 0 {
+		rec.Env = map[string]string{}
+		for _, k := range rt.cfg.ReadEnv {
+			if v, ok := os.LookupEnv(k); ok {
+				rec.Env[k] = v
+			}
+		}
+	}
 	rec.BeginNs, rec.BeginSeq = rt.env.Sim.Now(), rt.env.Sim.Step()
 	rt.env.Log("body-begin", int64(rec.Idx), int64(rec.Handle), rec.Iter)
 	return rec
@@ -136,4 +148,15 @@ func (rt *scenRT) end(t *f1t.T, rec *bodyRec, elapsed int64) {
 		delete(g.live, t)
 	}
 	rt.env.Log("body-end", int64(rec.Idx), int64(rec.Handle), rec.Iter)
+}
+
+func envStillSet(names []string) map[string]string {
+	out := map[string]string{}
+	for _, k := range names {
+		if v, ok := os.LookupEnv(k); ok {
+			out[k] = v
+			os.Unsetenv(k) // do not let one run's leak disturb the next run in this process
+		}
+	}
+	return out
 }
